@@ -62,7 +62,7 @@ def asym_occupancy(log):
 
 # ---------------------------------------------------------------- E4 (M-cases): parsing + the property on the dumps
 M_STRIP = re.compile(r'\{[^}]*\} ?')
-V_RE = re.compile(r'V(\d+)\[r=(\S+) q=(\S+) b=(\S+) n=(\d+)\]')
+V_RE = re.compile(r'V(\d+)\[(?:(off)|r=(\S+) q=(\S+) b=(\S+) n=(\d+))\]')
 T_RE = re.compile(r'^T(\d+)=([YRSBD?])(-?\d+)?(z)?(w(?:\d+|\?))?(e-?\d+)?(c(\d)(\d)(-?\d))?$')
 
 
@@ -91,7 +91,8 @@ def m_parse_dump(toks):
     def lst(x): return [] if x == '-' else x.split(',')
     text = ' '.join(toks)
     for m in V_RE.finditer(text):
-        vc[int(m.group(1))] = (lst(m.group(2)), lst(m.group(3)), lst(m.group(4)), int(m.group(5)))
+        # a finalised vCPU (vcpu_fini returned) is dumped as V<v>[off]: no queues any more
+        vc[int(m.group(1))] = None if m.group(2) else (lst(m.group(3)), lst(m.group(4)), lst(m.group(5)), int(m.group(6)))
     for t in V_RE.sub('', text).split():
         if t.startswith('!'): notes.append(t[1:]); continue
         m = T_RE.match(t)
@@ -113,7 +114,18 @@ def m_check_dump(nv, n, vc, th, notes):
             return 'a hooked access was executed outside the lock(s) that protect it (lockset hook; rule 17 = standby-queue push under standbyq.lock + thread.lock, 12-16 = sleep / dequeue / interrupt / timeout / done under thread.lock): ' + ' '.join(notes)
         return 'inconsistent scheduler internals: ' + ' '.join(notes)
     if sorted(vc) != list(range(nv)): return 'dump does not list every vCPU'
+    off = {v for v in range(nv) if vc[v] is None}
+    # fini_loses_nothing: a vCPU whose vcpu_fini() has returned owns no live thread (its own main thread and idler are gone too)
+    for k, t in sorted(th.items()):
+        if t['st'] != 'D' and t['vcpu'] in off:
+            return ('thread %d is live (state %s) and belongs to vCPU %d, which has been finalised (vcpu_fini / wait_all returned although the vCPU '
+                    'still had a thread): the thread is lost' % (k, t['st'], t['vcpu']))
+    for v in off:
+        for k in (v, n + v):
+            if k in th and th[k]['st'] != 'D': return 'vCPU %d is finalised but its %s thread %d is still live' % (v, 'main' if k == v else 'idler', k)
+    vc = {v: (x if x is not None else ([], [], [], 0)) for v, x in vc.items()}
     for v in range(nv):
+        if v in off: continue
         r, q, b, cnt = vc[v]
         for name, l in (('run queue', r), ('sleep queue', q), ('standby queue', b)):
             if '?' in l: return 'the %s of vCPU %d holds a thread that does not exist (any more)' % (name, v)
@@ -143,6 +155,7 @@ def m_check_dump(nv, n, vc, th, notes):
         if not ok: return 'thread %d (state %s) occurs (run,sleep,standby) = %s times in the queues of its vCPU %d' % (k, t['st'], o, own)
         if t['st'] == 'R' and vc[own][0][0] != str(k): return 'thread %d is RUNNING but not the CURRENT thread of vCPU %d' % (k, own)
     for v in range(nv):
+        if v in off: continue
         r, q, b, cnt = vc[v]
         for x in r + q + b:
             if int(x) not in th or th[int(x)]['st'] == 'D': return 'vCPU %d queues thread %s, which is not live' % (v, x)
@@ -174,11 +187,15 @@ class Check(DiffCheck):
             'started/returned/stack-released) is compared verbatim with the extracted model after EVERY command; generator: every interleaving of '
             'vCPU turns (length 6-11) and every short word over the fine-grained commands around 8 hand-made scenarios (stealable + interrupted '
             'sleeper in one standby queue in both orders, run-queue steals, migration ping-pong, expiry vs cross-vCPU interrupt, 3 vCPUs, dying '
-            'threads, steal inside the yield window) plus random programs x random command sequences; non-trivial = a migrate op or a stealable '
-            'thread with a steal scan, and commands for at least two vCPUs')
+            'threads, steal inside the yield window; vCPU wind-down: wait_all / vcpu_fini of a vCPU into which a thread is migrated before / after / '
+            'while its main thread is inside wait_all, with sleepers and cross-vCPU-interrupted sleepers, each ending with a drain of all vCPUs) '
+            'plus random programs (40 % with fini / waitall ops of main threads) x random command sequences; non-trivial = a migrate / fini / waitall '
+            'op or a stealable thread with a steal scan, and commands for at least two vCPUs')
     assumptions = ['sequential consistency for the interleaving theorems (asymmetric lock additionally under x86-TSO: refuted, F5)',
                    'context-switch assembly and byte-level stacks outside the model; stack release observed through a recording allocator',
-                   'the set of vCPUs is fixed during a run; main/idler threads are never migrated or joined']
+                   'vCPUs are created before the run; a vCPU ends with vcpu_fini of its main thread (modelled: wait_all loop + one merged block '
+                   'for the final test, go_offline, idler join and vcpu_destroy); nobody migrates a thread into a vCPU whose vcpu_fini has passed its '
+                   'last wait_all test (undefined in C++: stuck in the model); main/idler threads are never migrated']
     partial_note = ('PARTIAL: cross-vCPU transitions (migrate, cross-vCPU wake, drain, steal from run queue and standby queue) are proved for every '
                     'interleaving in the model and tied to the code by the controlled E4 replay at GATE granularity (one vCPU acts at a time, between '
                     'ops / idler calls / inside the yield window): interleavings INSIDE a block (two vCPUs inside their critical sections at once, lock '
@@ -365,19 +382,43 @@ while i < len(lines):
         ('yieldwin', 'M 2 p,a', ['create 2 1 1;yield;nop', '-', 'yield;yield;nop'], 's0 s0 s0 s1 y0'),
         # G: dying threads, non-joinable and joinable, stolen before they ever ran; join from the other vCPU
         ('die', 'M 2 p,a', ['create 2 1 1;create 3 0 1;usleep 10;released 2;released 3', 'usleep 1;join 2;released 2;nthreads', 'nop', '-'], 's0 s0'),
+        # ---- vCPU wind-down (wait_all / vcpu_fini; names start with `fini`: the case ends with a drain, see E4_DRAIN).  vCPU 0 = A is finalised
+        # I: vCPU 1 creates T2 and migrates it (READY -> A's standby queue, in no sleep queue) while A's main thread is blocked at its gate
+        #    in front of `fini`; every order of the turns: fini first (the migrate is then skipped), migrate first (wait_all must drain it) ...
+        ('fini-mig', 'M 2 -,-', ['fini', 'create 2 1 0;migrate 2 0;join 2;nthreads', 'nthreads;nop'], ''),
+        # J: T2 migrates ITSELF to A (deferred do_thread_migrate on the next thread's stack); A runs an op first, then fini
+        ('fini-self', 'M 2 -,-', ['nop;fini', 'create 2 1 0;yield;join 2', 'migrate 2 0;nthreads;nop'], ''),
+        # K: A has a sleeper with a deadline (T3), a sleeper interrupted from vCPU 1 (standby queue + sleep queue overlap), a stealable thread T4,
+        #    and receives the migrated T2; vCPU 1 may steal from A's standby queue / run queue while A is inside wait_all
+        ('fini-sleepers', 'M 2 p,a', ['create 3 1 0;create 4 0 1;yield;fini', 'create 2 1 1;migrate 2 0;interrupt 3 4;usleep 20;join 2;join 3',
+                                      'yield;nop', 'usleep 50;nop', 'usleep 300;yield;nop'], 's0 s0 s0'),
+        # L: the public wait_all() (the caller goes on afterwards: nthreads must be 2), then fini; a thread sleeps on A, one is migrated in
+        ('fini-waitall', 'M 2 -,-', ['create 3 0 0;waitall;nthreads;fini', 'create 2 1 0;migrate 2 0;usleep 7;nop', 'nop;yield;nop', 'usleep 30;nop'], 's0'),
+        # M: three vCPUs, two of them are finalised; threads migrated into both
+        ('fini-three', 'M 3 -,-,-', ['fini', 'create 3 1 0;migrate 3 0;create 4 1 0;migrate 4 2;waitall', 'yield;fini', 'nop;nop', 'yield;nop'], ''),
+        # N: the target's main thread is INSIDE wait_all (asleep in thread_usleep(1000) because T3 sleeps) when the migration arrives, T3 is then
+        #    interrupted from vCPU 1: standby queue holds the migrated thread and the interrupted sleeper together
+        ('fini-inside', 'M 2 -,-', ['create 3 0 0;yield;fini', 'create 2 1 0;usleep 3;migrate 2 0;interrupt 3 7;join 2', 'yield;nop', 'usleep 5000;nop'], 's0 s0 s0 s0'),
     ]
+    # the drain that ends every wind-down case: turns for every vCPU and clock ticks until nothing can move any more
+    @staticmethod
+    def _e4_drain(nv):
+        rnd = ' '.join('a%d' % v for v in range(nv))
+        return ' '.join([rnd] * 4 + ['t1001'] + [rnd] * 4 + ['t100003'] + [rnd] * 5)
 
     def _gen_e4(self, tier, rng):
         cand = []
         quick = tier == 'quick'
         for name, head, progs, setup in self.E4_TEMPLATES:
             nv = int(head.split()[1])
-            base = '%s | %s | %s' % (head, ' | '.join(progs), setup)
+            base = ('%s | %s | %s' % (head, ' | '.join(progs), setup)).rstrip()
+            drain = (' ' + self._e4_drain(nv)) if name.startswith('fini') else ''
             self._e4_cat = getattr(self, '_e4_cat', {})
             # (1) every interleaving of vCPU turns under the library idler's own policy (`a<v>`)
             La = (6 if nv == 2 else 4) if quick else (10 if nv == 2 else 6)
+            if drain: La += 1 if quick else 0
             for w in itertools.product(range(nv), repeat=La):
-                c = base + ' ' + ' '.join('a%d' % v for v in w)
+                c = base + ' ' + ' '.join('a%d' % v for v in w) + drain
                 cand.append(c); self._e4_cat[c] = 'M:%s:turns' % name
             # (2) every short word over the fine-grained commands after a random `a` prefix that reaches deeper states
             alpha = ['%s%d' % (k, v) for k in 'srwy' for v in range(nv)] + ['t25']
@@ -385,7 +426,7 @@ while i < len(lines):
             for _ in range(2 if quick else 4):
                 pre = ' '.join('a%d' % rng.randrange(nv) for _ in range(0 if name == 'yieldwin' else rng.randrange(0, 9)))   # yieldwin: stay inside the window
                 for w in itertools.product(alpha, repeat=Lf):
-                    c = (base + ' ' + pre).rstrip() + ' ' + ' '.join(w) + ' ' + ' '.join('a%d' % rng.randrange(nv) for _ in range(4))
+                    c = (base + ' ' + pre).rstrip() + ' ' + ' '.join(w) + ' ' + ' '.join('a%d' % rng.randrange(nv) for _ in range(4)) + drain
                     cand.append(c); self._e4_cat[c] = 'M:%s:fine' % name
         for _ in range(600 if quick else 8000):
             c = self._rand_e4(rng)
@@ -428,6 +469,14 @@ while i < len(lines):
             cr = rng.randrange(nv) if rng.random() < 0.8 else rng.randrange(n)
             pos = 0 if rng.random() < 0.7 else rng.randrange(0, len(progs[cr]) + 1)
             progs[cr].insert(pos, 'create %d %d %d' % (k, 1 if joinable[k] else 0, 1 if ws[k] else 0))
+        # vCPU wind-down: some main threads end with vcpu_fini() (or call wait_all() somewhere); such cases end with the drain
+        wind = rng.random() < 0.4
+        if wind:
+            for v in range(nv):
+                r = rng.random()
+                if r < 0.55: progs[v].append('fini')
+                elif r < 0.75: progs[v].insert(rng.randrange(0, len(progs[v]) + 1), 'waitall')
+            if not any(o in ('fini', 'waitall') for v in range(nv) for o in progs[v]): progs[rng.randrange(nv)].append('fini')
         cmds = []
         for _ in range(rng.randrange(8, 45)):
             r = rng.random(); v = rng.randrange(nv)
@@ -438,6 +487,7 @@ while i < len(lines):
             elif r < 0.94: cmds.append('y%d' % v)
             else: cmds.append('t%d' % rng.choice([1, 5, 10, 30, 100, 1000]))
             if rng.random() < 0.3: cmds += [cmds[-1][0] + str(v)] * rng.randrange(1, 4) if cmds[-1][0] in 'as' else []
+        if wind: cmds.append(self._e4_drain(nv))
         return 'M %d %s | %s | %s' % (nv, ','.join(flags), ' | '.join(';'.join(b) if b else '-' for b in progs), ' '.join(cmds))
 
     def _e4_model(self, cases):
@@ -459,6 +509,12 @@ while i < len(lines):
             if o is None: keep.append(c); continue
             pre = o[:40]
             if 'TIE ' in pre: cov['dropped_tie'] += 1; continue
+            if pre.startswith('STUCK'): cov['dropped_undefined'] = cov.get('dropped_undefined', 0) + 1; continue   # undefined behaviour in C++
+            cov['fini_cases'] = cov.get('fini_cases', 0) + int('[off]' in o)
+            # the scenario of seeded change C05_2: wait_all / vcpu_fini is entered (main at its gate, only main + idler in the ring, empty sleep
+            # queue) while a migrated thread sits in the standby queue, and the vCPU is finalised later
+            cov['fini_with_migrated_thread_in_standbyq'] = cov.get('fini_with_migrated_thread_in_standbyq', 0) + int(any(
+                re.search(r'V%d\[r=%d,\d+ q=- b=\d' % (v, v), o) and ('V%d[off]' % v) in o for v in range(int(c.split()[1]))))
             if '{F23RUN}' in pre: cov['dropped_f23_manifest'] += 1; continue
             self._f23[c] = '{F23CLASS}' in pre
             cov['kept_f23_class'] += int(self._f23[c])
@@ -486,7 +542,7 @@ while i < len(lines):
         if case[0] == 'M':
             nv, flags, progs, cmds = m_parse_case(case)
             ops = [o for p in progs for o in p]
-            cross = any(o[0] == 'migrate' for o in ops) or (any(o[0] == 'create' and len(o[1]) > 2 and o[1][2] for o in ops) and any(c[0] in 'wa' for c in cmds))
+            cross = any(o[0] in ('migrate', 'fini', 'waitall') for o in ops) or (any(o[0] == 'create' and len(o[1]) > 2 and o[1][2] for o in ops) and any(c[0] in 'wa' for c in cmds))
             return nv >= 2 and cross and len({c[1:] for c in cmds if c[0] != 't'}) >= 2
         if case[0] == 'A':
             f = case.split(' ')
@@ -582,6 +638,8 @@ while i < len(lines):
             vc, th, notes = d
             msg = m_check_dump(nv, n, vc, th, notes)
             if msg: return where + msg
+            off = {v for v in range(nv) if vc[v] is None}
+            finis = set()
             # ---- events: every op once and in order; join exact; counters
             if evs != '-':
                 for e in evs.split(','):
@@ -601,8 +659,24 @@ while i < len(lines):
                             return where + 'thread_join(%d) returned before the entry function of %d returned' % (k, k)
                         if ret != 1000 + k: return where + 'thread_join(%d) returned %d, the entry function returned %d' % (k, ret, 1000 + k)
                         joined.add(k)
+                    elif name == 'fini' and ret != -2:
+                        # vcpu_fini() returned on the OS thread of vCPU t: the vCPU is gone, the return value is the number of vCPUs left
+                        if t >= nv: return where + 'vcpu_fini was executed by thread %d, which is not the main thread of a vCPU' % t
+                        if t not in off: return where + 'vcpu_fini returned on vCPU %d but the vCPU is still there' % t
+                        if ret != nv - len(off): return where + 'vcpu_fini of vCPU %d returned %d, but %d vCPUs are left' % (t, ret, nv - len(off))
+                        finis.add(t)
+                    elif name == 'waitall' and ret != -2:
+                        # wait_all() returned: at that moment (the caller went straight to its next gate) the vCPU has nothing but the caller
+                        # and the idler in its run queue, and empty sleep and standby queues
+                        if ret != 0: return where + 'wait_all returned %d' % ret
+                        own = th[t]['vcpu']
+                        if own is not None and vc.get(own) is not None:
+                            r_, q_, b_, _n = vc[own]
+                            if len(r_) > 2 or q_ or b_:
+                                return where + ('wait_all() returned on vCPU %d while the vCPU still has other threads (run queue %s, sleep queue %s, '
+                                                'standby queue %s)' % (own, ','.join(r_) or '-', ','.join(q_) or '-', ','.join(b_) or '-'))
                     elif name == 'nthreads':
-                        if th[t]['vcpu'] is not None and ret != vc[th[t]['vcpu']][3]:
+                        if th[t]['vcpu'] is not None and vc.get(th[t]['vcpu']) is not None and ret != vc[th[t]['vcpu']][3]:
                             return where + 'nthreads = %d on vCPU %d whose counter is %d' % (ret, th[t]['vcpu'], vc[th[t]['vcpu']][3])
                     elif name == 'released' and ret != -2:
                         k = args[0]
@@ -619,6 +693,9 @@ while i < len(lines):
                 if not jn and t['released'] != t['returned']:
                     return where + 'non-joinable thread %d: entry function returned %d times, stack released %d times' % (k, t['returned'], t['released'])
             # ---- transitions: never lost, never resurrected; a thread that changes vCPU was in no sleep queue; steal rules
+            poff = {v for v in range(nv) if prev[0][v] is None} if prev is not None else set()
+            if poff - off: return where + 'finalised vCPU %d is back' % min(poff - off)
+            if (off - poff) != finis: return where + 'vCPU %s went offline without a vcpu_fini of its main thread returning' % sorted((off - poff) ^ finis)
             if prev is not None:
                 pvc, pth = prev
                 for k, t in pth.items():
@@ -637,6 +714,25 @@ while i < len(lines):
                             if 'p' not in flags[a]: return where + 'thread %d was stolen from vCPU %d, which is not passive' % (k, a)
                             if 'a' not in flags[b]: return where + 'vCPU %d stole thread %d although it is not active' % (b, k)
             prev = (vc, th)
+        if failed or prev is None: return failed
+        # ---- end of the run.  If every vCPU that still exists has gone idle (only its idler in the run queue, nothing in the standby
+        # queue) and the last turn of every such vCPU changed nothing, nothing will ever run again: every created program thread must
+        # then have run its entry function (exactly once: checked above) and be finished or blocked in a sleep queue — a thread that
+        # never ran, or is neither, is LOST.  (The generator ends the fini / wait_all scenarios with a drain: turns for all vCPUs + ticks.)
+        vc, th = prev
+        on = [v for v in range(nv) if vc[v] is not None]
+        if all(vc[v][0] == [str(n + v)] and not vc[v][2] for v in on):
+            last = {}
+            for i in range(len(segs) - 1, 0, -1):
+                if segs[i].split(' ', 2)[2:] != segs[-1].split(' ', 2)[2:] or ' ev=- ' not in segs[i]: break
+                if cmds[i - 1][0] in 'as' and cmds[i - 1][1:].isdigit(): last[int(cmds[i - 1][1:])] = True
+            if all(v in last for v in on):
+                for k, t in sorted(th.items()):
+                    if t['started'] is None: continue
+                    if t['started'] == 0 and t['st'] != 'D':
+                        return 'at the end (every vCPU idle or finalised): thread %d was created but its entry function never ran (state %s, vCPU %s): lost' % (k, t['st'], t['vcpu'])
+                    if t['st'] not in 'DS':
+                        return 'at the end (every vCPU idle or finalised): thread %d is neither finished nor blocked (state %s): lost' % (k, t['st'])
         return failed
 
     def _oracle_prog(self, case, out):
